@@ -78,6 +78,9 @@ def form_case(ctx, form):
                 ctx.mismatch("body refs", form, obs["body"], m["body"])
         elif m["outcome"] == "error":
             ctx.mismatch("model rejects, implementation accepts", form, "ok", m["err"])
+            if m["err"].get("kind") in ("dupSibling", "dupSection", "ambiguousRef"):
+                # names that the validation must keep unambiguous were accepted
+                ctx.fail(Failure("accepted-clash", f"a sheet with clashing names was converted: {m['err']}", {"form": form}))
     elif r["class"] == "pyxform" and m["outcome"] == "ok":
         ctx.mismatch("implementation rejects, model accepts", form, r["msg"][:300], "ok")
     ctx.record({"form": form}, nontrivial)
